@@ -14,7 +14,8 @@ HERE = os.path.dirname(os.path.dirname(os.path.abspath(__file__)))
 tier = sys.argv[1] if len(sys.argv) > 1 else 'quick'
 only = set(sys.argv[2:])
 EXTRA = {'C04-1': ['C14'], 'C09-3': ['C18'], 'C16-1': ['C12'], 'C14-1': ['C04'], 'C09-14': ['C14'], 'C17-12': ['C15'], 'C18-13': ['C09'],
-         'C01-16': ['C09'], 'C02-16': ['C06'], 'C07-16': ['C09'], 'C16-16': ['C12'], 'C18-16': ['C17'], 'C11-18': ['C05']}
+         'C01-16': ['C09'], 'C02-16': ['C06'], 'C07-16': ['C09'], 'C16-16': ['C12'], 'C18-16': ['C17'], 'C11-18': ['C05'],
+         'C01-22': ['C14'], 'C16-21': ['C12'], 'C02-21': ['C06']}
 for path in sorted(glob.glob(os.path.join(HERE, 'seeded', '*', 'meta.json'))):
     meta = json.load(open(path))
     sid = meta['id']
